@@ -34,9 +34,21 @@ Theorem C12_pipeline : forall ps r, pipeline_ok ps r = true ->
 Proof. exact pipeline_sem. Qed.
 Print Assumptions C12_pipeline.
 
+(* keyword entries with modifiers keep substring semantics composed with the modifier (Spec.Rewrite.kw_value):
+   '|all': [a, b*] with null -> [m, r] is any of [{m|contains|all: [a, b*]}, {r|contains|all: [a, b*]}] *)
+Theorem C12_keyword_all :
+  rdocs_of (apply_tspec no_conds (TFieldMap [(None, FMany [[109%N]; [114%N]])]) kwall_rule)
+  = [([115%N], All [Any [Entry (mkI (Some [109%N]) [V (AStr false [PMulti; PStr [97%N]; PMulti]); V (AStr false [PMulti; PStr [98%N]; PMulti])] true false []);
+                         Entry (mkI (Some [114%N]) [V (AStr false [PMulti; PStr [97%N]; PMulti]); V (AStr false [PMulti; PStr [98%N]; PMulti])] true false [])]])]
+  /\ rdocs_of (apply_tspec no_conds (TFieldMap [(None, FMany [[109%N]; [114%N]])]) kwall_rule)
+     = rewrite_tspec no_conds (TFieldMap [(None, FMany [[109%N]; [114%N]])]) (rdocs_of kwall_rule).
+Proof. exact keyword_all_example. Qed.
+Print Assumptions C12_keyword_all.
+
 (* FULL STATEMENT for keyword -> field mapping (false of the faithful model, D28):
      forall asg c t r, meanings asg (apply_tspec c t r) = doc_meanings asg (rewrite_tspec c t (rdocs_of r))
-   C12_item proves it on rule_sem_ok (keyword items mapped to a field carry no number); without the premise: *)
+   C12_item proves it on rule_sem_ok (keyword items mapped to a field carry no number and no value expansion);
+   without the premise: *)
 Theorem C12_keyword_number_refuted :
   exists asg c t r, meanings asg (apply_tspec c t r) <> doc_meanings asg (rewrite_tspec c t (rdocs_of r)).
 Proof. exact keyword_number_refuted. Qed.
